@@ -51,7 +51,7 @@ def script(rng, sid, kind):
 
 def generate(rng, tier, run):
     maxlen = 8 if tier == "quick" else 12
-    situation = rng.choice(["nothing", "loaded", "loaded", "loaded2", "finished", "failed", "stepped"])
+    situation = rng.choice(["nothing", "loaded", "loaded", "loaded2", "finished", "failed", "stepped", "stepped"])
     steps = [{"do": "vm_new", "vm": "a", "conf": {"print_work": False}}]
     kinds = ["loop", "nested", "long", "spawner", "loop", "error"]
     if situation in ("loaded", "stepped"):
@@ -66,7 +66,9 @@ def generate(rng, tier, run):
         steps.append({"do": "load", "vm": "a", "text": script(rng, 1, "error"), "name": "s1.sqf"})
         steps.append({"do": "action", "vm": "a", "name": "start"})
     if situation == "stepped":
-        for _ in range(rng.randint(1, 4)):
+        # any instruction boundary may be the position further actions start from (e.g. right behind the last
+        # instruction of an inner block)
+        for _ in range(rng.randint(1, 16)):
             steps.append({"do": "action", "vm": "a", "name": "assembly_step"})
     threaded = rng.random() < 0.6
     if threaded:
@@ -79,8 +81,13 @@ def generate(rng, tier, run):
             yields.append(rng.choice([-1, -1, -1, -1, 0, 1]))
         steps.append({"do": "par", "threads": [ex, co], "yields": yields, "max_yields": 400000})
     else:
-        for _ in range(rng.randint(1, maxlen)):
-            steps.append({"do": "action", "vm": "a", "name": rng.choice(ACTIONS)})
+        n = rng.randint(1, maxlen)
+        while n > 0:
+            a = rng.choice(ACTIONS)
+            rep = rng.randint(1, 4) if a == "assembly_step" else 1     # runs of single steps move the position
+            for _ in range(min(rep, n)):
+                steps.append({"do": "action", "vm": "a", "name": a})
+            n -= rep
     # S7: the VM must still accept work
     steps.append({"do": "state", "vm": "a"})
     # epilogue: discard or drain whatever is left (abort is refused while the state is still 'empty' with scripts that
